@@ -7,6 +7,7 @@
     abbreviation templates with and without an implicit repeater; oracle: closed-form expected output per template.
 """
 import itertools
+import re
 from emmet import expand
 from mc import explore
 from mc.alphabets import NBSP
@@ -53,6 +54,8 @@ IMPLICIT = [
     ('x*2>y*{$#}', lambda l: '<y>%s</y>' % l, '<x>', '</x>', 2),
     ('t>r*3>d*{$#}', lambda l: '<d>%s</d>' % l, '<r>', '</r>', 3, '<t>', '</t>'),
     ('(x>y*{$#})*2', lambda l: '<y>%s</y>' % l, '<x>', '</x>', 2),
+    # a placeholder in an attribute of an ANCESTOR of the repeated element: the copies still receive their lines
+    ('u[t=$#]>li*', lambda l: '<li>%s</li>' % l, None, '</u>'),
 ]
 PLAIN = [
     ('x', '<x>', '</x>'),
@@ -152,9 +155,22 @@ def check_wrap(lines):
         except Exception as e:
             bad.append((abbr, ('wrap:exception:%s' % type(e).__name__, dict(abbr=abbr, lines=lines, error=str(e)[:120]))))
             continue
+        if pre is None:
+            # the ancestor's own placeholder receives the text as a whole (how its lines are joined there is left open)
+            m_ = re.match(r'^<u t="[^"]*">', out, re.S)
+            pre = m_.group(0) if m_ else '<u t="?">'
         exp = opre + (pre + ''.join(f(l) for l in clean) + post) * times + opost
         if out != exp:
             bad.append((abbr, ('wrap:implicit:%s' % abbr, dict(abbr=abbr, lines=lines, expected=exp, actual=out))))
+    # the caller's configuration is reused for a second call: same result, and the text is still there
+    cfg_ = {'text': list(lines), 'options': dict(NOFMT)}
+    try:
+        o1 = expand(IMPLICIT[1][0], cfg_)
+        o2 = expand(IMPLICIT[1][0], cfg_)
+        if o1 != o2 or cfg_.get('text') != list(lines):
+            bad.append((IMPLICIT[1][0], ('wrap:second-call-with-the-same-config-differs', dict(abbr=IMPLICIT[1][0], lines=lines, first=o1, second=o2, text_after=cfg_.get('text')))))
+    except Exception as e:
+        bad.append((IMPLICIT[1][0], ('wrap:exception:%s' % type(e).__name__, dict(lines=lines, error=str(e)[:120]))))
     whole = '\n'.join(lines).strip()
     if len(clean) >= 1:
         # the same lines supplied as ONE string: either reading is accepted (a single text -> one copy holding all of it; or its
